@@ -115,6 +115,28 @@ Theorem c08_disco_exact : forall m eid url l,
 Proof. exact disco_exact. Qed.
 Print Assumptions c08_disco_exact.
 
+(* "starts with" is literal extension: an approved return URL is a registered location followed by
+   some rest, so no look-alike of a registered location (slash-less, case-changed, re-encoded,
+   normalised form, continued by anything) is approved; stated for the model and for any verdict
+   on which the spec evaluates to true (the verdicts recorded on the real code) *)
+Theorem c08_disco_approved_extends : forall m eid url,
+  verify_return m eid url = Approved true ->
+  exists loc rest, registers_disco m eid loc /\ url = (loc ++ rest)%string.
+Proof. exact disco_approved_extends. Qed.
+Print Assumptions c08_disco_approved_extends.
+
+Theorem c08_disco_lookalike_refused : forall m eid url,
+  (forall loc rest, registers_disco m eid loc -> url <> (loc ++ rest)%string) ->
+  verify_return m eid url <> Approved true.
+Proof. exact disco_lookalike_refused. Qed.
+Print Assumptions c08_disco_lookalike_refused.
+
+Theorem c08_spec_disco_extends : forall m eid url,
+  spec m (OpDisco eid url) (Approved true) ->
+  exists loc rest, registers_disco m eid loc /\ url = (loc ++ rest)%string.
+Proof. exact spec_disco_extends. Qed.
+Print Assumptions c08_spec_disco_extends.
+
 (* a URL registered for the binding in the FIRST source that has the requester is accepted, for any
    number of sources and whatever later sources say (the model does not refuse everything) *)
 Theorem c08_answer_complete : forall m s eid ds ep b u etype prefs req descr,
